@@ -44,6 +44,11 @@ type C05Cfg struct {
 	// Component: which component of a Pointcheval-Sanders share / public key (x, y_1 .. y_k) a deviation alters:
 	// 0 = x, -1 = the last y, k > 0 = y_((k-1) mod number of ys) + 1. (BLS has one component.)
 	Component int `json:"component,omitempty"`
+	// CancelNode/CancelAfter (concurrent dispatch, set by C20): CancelAfter steps after every call has started, the
+	// context of CancelNode's KeyGen is cancelled in the very step in which a protocol message is dispatched into
+	// that node: a call that gives up while a message for its session is being handled (0: never).
+	CancelNode  uint16 `json:"cancelNode,omitempty"`
+	CancelAfter int    `json:"cancelAfter,omitempty"`
 }
 
 // component returns a pointer to the chosen component of k.
@@ -506,6 +511,7 @@ func runC05(t *testing.T, spec RunSpec) *RunResult {
 		dkgTopic := sha([]byte("DKG"))
 		deadline := time.Duration(cfg.DeadlineMs)*time.Millisecond + 19*time.Microsecond
 		st := &starter{}
+		cancelOf := map[uint16]context.CancelFunc{} // root goroutine only
 		if cfg.Direct {
 			// backend-to-backend: the wire format of the orchestrator ([255] + protocol message) is kept so that the
 			// same adversary applies; the receiver classifies the message itself, as the orchestrator would
@@ -549,20 +555,44 @@ func runC05(t *testing.T, spec RunSpec) *RunResult {
 					kg.OnMsg(payload, inc.Source, bcast)
 				}))
 				st.add(fmt.Sprintf("start:kg:%d", id), id, 3, func() *netsim.Call {
-					ctx, _ := d.Ctx(deadline)
+					ctx, c := d.Ctx(deadline)
+					cancelOf[id] = c
 					return w.StartCall("KeyGen", id, func() ([]byte, error) { return kg.KeyGen(ctx) })
 				})
 			}
 		} else {
 			d.Build()
 			for _, id := range cfg.Deploy.IDs {
-				st.add(fmt.Sprintf("start:kg:%d", id), id, 3, startKeyGen(d, id, cfg.N, cfg.T, deadline))
+				id := id
+				st.add(fmt.Sprintf("start:kg:%d", id), id, 3, func() *netsim.Call {
+					ctx, c := d.Ctx(deadline)
+					cancelOf[id] = c
+					p := d.Parties[id]
+					return w.StartCall("KeyGen", id, func() ([]byte, error) { return p.KeyGen(ctx, cfg.N, cfg.T) })
+				})
 			}
 		}
 		adv := &c05Adversary{w: w, cfg: cfg, seed: spec.Seed, curve: PSCurve, topic: dkgTopic}
 		w.Filter = adv.Filter
 		sched, ss := scheduler(spec, cfg.Strategy)
 		w.Propose = st.proposals
+		if cfg.CancelAfter > 0 {
+			startedAt, cancelled := -1, false
+			w.Propose = func() []netsim.Proposal {
+				out := st.proposals()
+				if st.allStarted() && startedAt < 0 {
+					startedAt = w.Step
+				}
+				if c := cancelOf[cfg.CancelNode]; c != nil && !cancelled && startedAt >= 0 && w.Step >= startedAt+cfg.CancelAfter {
+					out = append(out, netsim.Proposal{Key: fmt.Sprintf("cancel:%d", cfg.CancelNode), Mandatory: true, Weight: 20, JoinWith: true, JoinNode: cfg.CancelNode, JoinClass: "mpc", Fire: func() {
+						cancelled = true
+						w.Faults["cancel-joined"]++
+						c()
+					}})
+				}
+				return out
+			}
+		}
 		lim := netsim.RunLimits{MaxSteps: 80000, Horizon: deadline + 20*time.Second, FairAfterSteps: 5000, FairAfter: deadline / 2}
 		v := w.Run(sched, lim, func() bool { return st.allDone(w) && quiet(w) })
 		if v != nil {
